@@ -868,6 +868,21 @@ def _cquant(which):
             lo, hi = z3.IntVal(0), bounds[0].t
         else:
             lo, hi = bounds[0].t, bounds[1].t
+        lo_s, hi_s = z3.simplify(lo), z3.simplify(hi)
+        if z3.is_int_value(lo_s) and z3.is_int_value(hi_s) and hi_s.as_long() - lo_s.as_long() <= 6:
+            # a concrete small range: the instances are written out (elements looked up by a concrete index stay the
+            # caller's own objects instead of an if-then-else merge)
+            parts = []
+            for k in range(lo_s.as_long(), hi_s.as_long()):
+                res_k = apply(ex, lam, [Num(k)], {}, symex.Path(p.cond, p.env, None, p.heap), node)
+                dk = []
+                for q, v in res_k:
+                    extra = q.cond[len(p.cond):]
+                    dk.append(z3.And(*extra, truth(v)) if extra else truth(v))
+                parts.append(z3.Or(dk) if len(dk) != 1 else dk[0])
+            if which == "forall":
+                return [(p, Bool(z3.And(parts) if parts else z3.BoolVal(True)))]
+            return [(p, Bool(z3.Or(parts) if parts else z3.BoolVal(False)))]
         i = fresh_int("k")
         res = apply(ex, lam, [Num(i)], {}, symex.Path(p.cond + [i >= lo, i < hi], p.env, None, p.heap), node)
         # merge forked evaluation of the body
